@@ -71,8 +71,8 @@ PROBES = ['cfg:faults', 'cfg:fault-free', 'kind:tcpserver', 'kind:unixserver', '
           'fault:fatal_send_error', 'close-deferred', 'close-immediate', 'close-performed', 'write-after-close-request', 'write-after-closed',
           'payload-empty', 'payload-large', 'fatal-signalled', 'post-payload-written', 'flushed-in-full']
 TIERS = {
-    'quick': dict(runs=50000, wall=30, chunk=200, cfg=dict(max_ops=16, large=(60_000, 300_000), max_total=450_000, large_w=1)),
-    'thorough': dict(runs=1500000, wall=600, chunk=400, cfg=dict(max_ops=40, large=(300_000, 4_000_000), max_total=9_000_000, large_w=2)),
+    'quick': dict(runs=50000, wall=26, chunk=60, cfg=dict(max_ops=16, large=(60_000, 300_000), max_total=450_000, large_w=1)),
+    'thorough': dict(runs=200000, wall=600, chunk=400, cfg=dict(max_ops=40, large=(300_000, 4_000_000), max_total=9_000_000, large_w=2)),
 }
 
 K_CLIENT = 'C11/client/transient-errno/payload-lost'
@@ -138,7 +138,7 @@ class Script:
         return False
 
     def on_send(self, sock, n):
-        return self.decide(n)
+        return self.decide(n) if sock is self.st['sock'] else None
 
     def decide(self, n):
         ctx, st, ch = self.ctx, self.st, self.ctx.ch
@@ -270,6 +270,7 @@ def _run(ctx):
         return out
 
     CAUSE = {'transient-errno': 'transient-errno', 'partial-send': 'partial-send'}
+    ranges = []          # [start, end) offsets of the written stream that were accepted
 
     def classify(g, prev):
         exp = min(offset_of(s) for s in st['states'])
@@ -277,24 +278,27 @@ def _run(ctx):
         d = 0
         while d < len(g) and exp + d < total and g[d] == PAT[exp + d]:
             d += 1
-        bad, rest = exp + d, bytes(g[d:d + 16])
+        bad, rest, head = exp + d, bytes(g[d:d + 16]), bytes(g[:16])
         effect, q = None, -1
-        if bad < total:
-            for off, size, _ in pays:
-                L = min(len(rest), total - off)
-                if off > bad and size and L > 0 and PAT[off:off + L] == rest[:L]:
-                    effect, q = 'payload-lost', off
-                    break
-            if effect is None:
-                q = PAT.find(rest, bad + 1, total)
-                if q >= 0:
-                    effect = 'bytes-lost'
+        # queue entries start at payload starts: where does the chunk that was handed over really belong?
+        for off, size, _ in pays:
+            L = min(len(head), total - off)
+            if off > exp and size and L > 0 and PAT[off:off + L] == head[:L]:
+                effect, q = 'payload-lost', off         # something before it was skipped (dropped, or moved behind it)
+                break
         if effect is None:
-            q = PAT.find(rest, 0, bad)
-            effect = 'bytes-repeated' if q >= 0 else 'corrupt'
+            q = PAT.find(head, 0, exp - 1 + len(head))       # a match that starts before the expected offset
+            if q >= 0:      # handed over before -> repeated; a skipped post-close payload turning up later -> reordered
+                effect = 'bytes-repeated' if any(a <= q < b for a, b in ranges) else 'reordered'
+        if effect is None and bad < total:
+            q = PAT.find(rest, bad + 1, total)
+            if q >= 0:
+                effect = 'bytes-lost'
+        if effect is None:
+            effect = 'corrupt'
         return ('C11/%s/%s/%s' % (grp, CAUSE.get(prev, 'no-fault'), effect),
-                'stream offset %d: the OS was handed %r... which is %s (found at written offset %d); expected %r...; previous send outcome: %s; '
-                'written so far: %s' % (st['acc'] + d, rest[:8].hex(), effect, q, PAT[bad:bad + 8].hex(), prev,
+                'stream offset %d: the OS was handed %s... (first wrong byte at +%d) = %s (belongs at written offset %d); expected %s...; previous send '
+                'outcome: %s; written so far: %s' % (st['acc'], head[:8].hex(), d, effect, q, PAT[exp:exp + 8].hex(), prev,
                                         ['#%d@%d+%d%s' % (i, o, s, '' if ph == 'pre' else '(post-close)') for i, (o, s, ph) in enumerate(pays)][:12]))
 
     def missing(where):
@@ -318,6 +322,8 @@ def _run(ctx):
             st['last'] = 'transient-errno'
             st['refusals'] += 1
             ctx.stat('real-send-error')
+            if name not in ('?', 'EAGAIN', 'EWOULDBLOCK', 'EINTR', 'ENOBUFS') and st['fatal'] is None:
+                st['fatal'] = name          # a real fatal errno from the kernel (not expected with a peer that stays open)
             ctx.log('send-real-err', c['n'], name)
             ctx.trace('  send(%d bytes) -> real error %s from the kernel' % (c['n'], name))
 
@@ -366,12 +372,21 @@ def _run(ctx):
                 st['states'] = new
                 if any(j >= 0 for j, _ in new):
                     ctx.stat('post-payload-written')
+                j, k = min(new)         # where the accepted chunk lies in the written stream (for diagnosis only)
+                end = k if j < 0 else (st['post'][j][0] + k if k else sum(st['post'][j - 1]) if j else st['pre_total'])
+                if ranges and ranges[-1][1] == end - len(g):
+                    ranges[-1][1] = end
+                else:
+                    ranges.append([end - len(g), end])
         st['acc'] += len(g)
 
     def on_close():
         if st['closed_at'] is not None:
             return
         st['closed_at'] = st['acc']
+        c = st['call']
+        if c is not None and not c['done'] and st['fatal'] is None:
+            st['fatal'] = 'real-error'      # the last send raised an errno the interposer did not inject and cannot see: do not demand completeness
         ctx.log('closed', st['acc'])
         ctx.trace('  descriptor closed after %d accepted bytes' % st['acc'])
         if st['close_req']:
@@ -396,12 +411,23 @@ def _run(ctx):
     def ev(name, *info):
         ctx.log('ev', name, *info)
         ctx.trace('  event %s%s' % (name, info if info else ''))
-        if name in ('error', 'disconnect', 'disconnected', 'closed'):
+        # "a fatal send error is always signalled by an error or disconnect event": an event dispatched after the fatal errno was raised;
+        # an `error` carrying a transient errno (what the client fires for EAGAIN) does not count
+        if st['fatal'] is not None and (name in ('disconnect', 'disconnected', 'closed') or
+                                        (name == 'error' and info[0] not in ('EAGAIN', 'EINTR', 'ENOBUFS'))):
             st['signalled'] = True
 
     # ---- the endpoint under test
+    class Exc(Component):
+        channel = '*'
+
+        def exception(self, etype, *a, **k):        # a handler raised: not judged here (C12/C14), but visible in the log
+            ctx.stat('exception-event')
+            ev('exception', getattr(etype, '__name__', str(etype)))
+
     m = make_running(Manager())
     pcls().register(m)
+    Exc().register(m)
     if grp == 'server':
         addr = ('10.0.0.1', 80) if kind == 'tcpserver' else '/sim/c11.sock'
 
@@ -540,6 +566,7 @@ def _run(ctx):
     try:
         _drive(ctx, st, pays, PAT, m, kind, grp, fire_write, fire_close, peer_read, pol, pre_done, missing, fail, finish_real_error)
     finally:
+        NET.oplog = None            # NET.close_all() closing the descriptors is not part of the history
         if grp == 'file':
             st['file'].on_close = None
     ctx.sim_time = W.now - T0
